@@ -299,10 +299,22 @@ const Type* TypeCanonicalizer::canonicalize(const Type* ty, const Scope* scope)
             auto unqualTy = qualTy->unqualifiedType();
             auto canonTy = canonicalize(unqualTy, scope);
             if (canonTy != unqualTy) {
-                qualTy->resetUnqualifiedType(
-                        canonTy->kind() == TypeKind::Qualified
-                            ? canonTy->asQualifiedType()->unqualifiedType()
-                            : canonTy);
+                if (canonTy->kind() == TypeKind::Qualified) {
+                    // 6.7.3-5: qualifiers reached through a typedef add to the ones written here.
+                    auto innerQualTy = canonTy->asQualifiedType();
+                    const auto innerQuals = innerQualTy->qualifiers();
+                    if (innerQuals.hasConst())
+                        const_cast<QualifiedType*>(qualTy)->qualifyWithConst();
+                    if (innerQuals.hasVolatile())
+                        const_cast<QualifiedType*>(qualTy)->qualifyWithVolatile();
+                    if (innerQuals.hasRestrict())
+                        const_cast<QualifiedType*>(qualTy)->qualifyWithRestrict();
+                    if (innerQuals.hasAtomic())
+                        const_cast<QualifiedType*>(qualTy)->qualifyWithAtomic();
+                    qualTy->resetUnqualifiedType(innerQualTy->unqualifiedType());
+                }
+                else
+                    qualTy->resetUnqualifiedType(canonTy);
                 discardedTys_.insert(unqualTy);
             }
             break;
